@@ -96,6 +96,20 @@ def _exc(n):
 def arr_subscript(o, idx):
     if not isinstance(idx, tuple): idx = (idx,)
     if any(x is Ellipsis for x in idx): raise Unsupported("ellipsis")
+    if any(x is None for x in idx):
+        # numpy newaxis: index without the None entries, then insert unit axes where they stood (found by a benign refactoring: `q[:, None]` was
+        # reported as "IndexError: too many indices")
+        if any(isinstance(x, SArr) and x.ndim > 0 for x in idx): raise Unsupported("newaxis combined with an index array")
+        base = arr_subscript(o, tuple(x for x in idx if x is not None))
+        pos = []; r = 0
+        for x in idx:
+            if x is None: pos.append(r); r += 1
+            elif isinstance(x, slice): r += 1
+        sh = list(base.shape) if isinstance(base, SArr) else []
+        for p_ in pos: sh.insert(p_, 1)
+        if not isinstance(base, SArr): base = SArr((), lambda i, b=base: b)
+        keep = [d for d in range(len(sh)) if d not in pos]
+        return SArr(tuple(sh), lambda ridx, base=base, keep=keep: base.get(tuple(ridx[d] for d in keep)))
     if len(idx) > o.ndim: raise PyRaise(_exc("IndexError"), "too many indices")
     # plan per source axis: ("int", i) | ("slice", start, length) | ("gather", arr) ; result dims in order
     plan = []; gathers = []
@@ -372,6 +386,10 @@ def concat(parts, axis=0):
         return arr_from_list(items)
     def get(idx):
         i = idx[0]; rest = tuple(idx[1:])
+        ci = concrete_int(i)
+        if ci is not None and all(concrete_int(o_) is not None for o_ in offs):          # concrete position: read the part that holds it (no speculative out-of-range reads)
+            for k in range(len(parts)):
+                if concrete_int(offs[k]) <= ci < concrete_int(offs[k + 1]): return parts[k].get((ci - concrete_int(offs[k]),) + rest)
         r = parts[-1].get((binop_("Sub", i, offs[-2]),) + rest)
         for k in range(len(parts) - 2, -1, -1):
             r = Ite(toz3(i) < toz3(offs[k + 1]), parts[k].get((binop_("Sub", i, offs[k]),) + rest), r)
